@@ -168,6 +168,16 @@ def make_classes():
                                     SelfResetter, Backend, Shadowy, Plugin)}
 
 
+def _construct(k, cls, args, kwargs):
+    """Every fourth construction is made from inside an exception handler of the caller (an error path)."""
+    if k % 4 != 2:
+        return oracles.outcome(cls, *args, **kwargs)
+    try:
+        raise LookupError("something unrelated the caller is dealing with")
+    except LookupError:
+        return oracles.outcome(cls, *args, **kwargs)
+
+
 def _clear_all(k):
     """The documented spellings of 'clear everything': no argument, the default passed explicitly, by position or name."""
     if k % 3 == 0:
@@ -219,7 +229,7 @@ def run_history(ops, keep_refs=True):
             cls = classes[cname]
             args, kwargs = ARGS[op["a"]], dict(KWARGS[op["k"]])
             n0 = len(INIT_LOG)
-            res = oracles.outcome(cls, *args, **kwargs)
+            res = _construct(k, cls, args, kwargs)
             if res[0] != "ok":
                 viol(f"construct:raised:{res[1].__name__}", "constructor raised", k)
                 break
@@ -318,7 +328,7 @@ def run_history_norefs(ops):
             touched.add(cname)
             args, kwargs = ARGS[op["a"]], dict(KWARGS[op["k"]])
             n0 = len(INIT_LOG)
-            res = oracles.outcome(classes[cname], *args, **kwargs)
+            res = _construct(k, classes[cname], args, kwargs)
             if res[0] != "ok":
                 found.append((f"construct:raised:{res[1].__name__}:no_strong_refs", f"op #{k} {op}: constructor raised"))
                 break
